@@ -422,6 +422,84 @@ def if_corpus():
     return out
 
 
+def chain_problem(label, order, kind="int", arg=0, guard=False, distractor=False, tail_goal=True, rng=None):
+    """A dependency chain through copying actions: `assign: x := f(arg)`, `copy1: y := x`, (`copy2: z := y`), declared in
+    the given order (a permutation of the action names), goal on the last fluent of the chain.  The fluents are
+    unbounded integers / Booleans whose true value differs from the initial (stale) one, so the problem is solvable
+    only through the interpreted function and a fluent that the compiler fails to track makes the compiled problem
+    unsolvable."""
+    from unified_planning.environment import Environment
+    from unified_planning.model import Fluent, Problem, InstantaneousAction, InterpretedFunction
+    env = Environment()
+    env.credits_stream = None
+    tm, em = env.type_manager, env.expression_manager
+    p = Problem(label, env)
+    n = len(order)                         # 2: x -> y, 3: x -> y -> z
+    names = ["x", "y", "z"][:n]
+    if kind == "int":
+        fls = [Fluent(nm, tm.IntType(), environment=env) for nm in names]
+        for f in fls:
+            p.add_fluent(f, default_initial_value=0)
+        fun = InterpretedFunction("fi", tm.IntType(), OrderedDict([("a", tm.IntType())]), lambda a: a + 2, env)
+        target = em.Equals(fls[-1], arg + 2)
+        mid = em.Equals(fls[0], arg + 2)
+    else:
+        fls = [Fluent(nm, tm.BoolType(), environment=env) for nm in names]
+        for f in fls:
+            p.add_fluent(f, default_initial_value=False)
+        fun = InterpretedFunction("fb", tm.BoolType(), OrderedDict([("a", tm.IntType())]), lambda a: True, env)
+        target = em.FluentExp(fls[-1])
+        mid = em.FluentExp(fls[0])
+    d = Fluent("d", tm.BoolType(), environment=env)
+    p.add_fluent(d, default_initial_value=False)
+    acts = {}
+    a = InstantaneousAction("assign", _env=env)
+    if guard:
+        a.add_precondition(d)
+    a.add_effect(fls[0], em.InterpretedFunctionExp(fun, [em.Int(arg)]))
+    acts["assign"] = a
+    for i in range(1, n):
+        c = InstantaneousAction("copy%d" % i, _env=env)
+        c.add_effect(fls[i], fls[i - 1])
+        acts["copy%d" % i] = c
+    todo = list(order)
+    if distractor or guard:
+        s = InstantaneousAction("setd", _env=env)
+        s.add_effect(d, True)
+        acts["setd"] = s
+        pos = 0 if rng is None else rng.randint(0, len(todo))
+        todo.insert(pos, "setd")
+    for nm in todo:
+        p.add_action(acts[nm])
+    p.add_goal(target)
+    if not tail_goal:
+        p.add_goal(mid)
+    return HandProblem(p, label)
+
+
+def chain_corpus():
+    """every declaration order of the chain actions relative to the action with the interpreted-function assignment,
+    chains of length 2 and 3, integer and Boolean"""
+    from itertools import permutations
+    out = []
+    for n in (2, 3):
+        names = ["assign"] + ["copy%d" % i for i in range(1, n)]
+        for k, order in enumerate(permutations(names)):
+            kind = "int" if (k + n) % 2 == 0 else "bool"
+            out.append(chain_problem("chain%d-%s-%s" % (n, kind, ">".join(order)), order, kind=kind))
+    return out
+
+
+def gen_chain(rng):
+    names3 = ["assign", "copy1", "copy2"]
+    n = rng.randint(2, 3)
+    order = names3[:n]
+    rng.shuffle(order)
+    hp = chain_problem("gen-chain", order, kind=rng.choice(["int", "bool"]), arg=rng.randint(0, 3),
+                       guard=rng.random() < 0.4, distractor=rng.random() < 0.4, tail_goal=rng.random() < 0.7, rng=rng)
+    return hp
+
+
 def gen_c01_if(rng):
     """C01 grammar problem that applies its interpreted function `fi` (GenProblem's ifuns knob)"""
     for _ in range(40):
@@ -1130,7 +1208,9 @@ def run(ctx):
     out["times"]["oversub_python"] = round(time.time() - t0, 1)
     t0 = time.time()
     # ---------------- interpreted functions
-    gens = list(if_corpus())
+    gens = list(if_corpus()) + list(chain_corpus())
+    for i in range(12 if ctx.quick else 120):
+        gens.append(gen_chain(rng))
     for i in range(n_if):
         gens.append(IFProblem(rng, cond_effects=rng.random() < 0.6, nested=rng.random() < 0.4))
     for i in range(n_c01if):
